@@ -599,10 +599,20 @@ func collectAliasSites(v reflect.Value, name string, depth int, ptrs map[reflect
 			return
 		}
 		for i := 0; i < v.NumField(); i++ {
-			if v.Type().Field(i).PkgPath != "" {
+			sf := v.Type().Field(i)
+			if sf.PkgPath != "" {
 				continue
 			}
-			collectAliasSites(v.Field(i), name+"."+v.Type().Field(i).Name, depth+1, ptrs, vals, slices)
+			if sf.Anonymous && sf.Type.Kind() == reflect.Ptr {
+				// a nullable EMBEDDED message is the one pointer the converters write through (its excluded
+				// fields must survive): if it shared memory with another field that is written in place, two
+				// attributes would be backed by one location and no converter could satisfy both. Not aliased.
+				if !v.Field(i).IsNil() {
+					collectAliasSites(v.Field(i).Elem(), name+"."+sf.Name, depth+1, ptrs, map[reflect.Type][]aliasSite{}, slices)
+				}
+				continue
+			}
+			collectAliasSites(v.Field(i), name+"."+sf.Name, depth+1, ptrs, vals, slices)
 		}
 	case reflect.Ptr:
 		if v.Type().Elem().Kind() != reflect.Struct {
